@@ -539,10 +539,11 @@ func (c *Ctx) hashStoreReaders() {
 // levelMaskAlgebra: the four level-mask functions in their defining forms (TON: a level mask has one
 // bit per significant level 1..3). Each rule accepts the usual equivalent spellings and rejects forms
 // that compute a different function for masks with a gap (0b10, 0b101):
-//   Level         = bit length of m          (32-LeadingZeros32 / bits.Len32)
-//   HashIndex     = number of set bits       (OnesCount)
-//   Apply(l)      = m & ((1<<l)-1)
-//   IsSignificant = l == 0 || bit l-1 of m   (a single-bit test: x%2, x&1, m&(1<<k))
+//
+//	Level         = bit length of m          (32-LeadingZeros32 / bits.Len32)
+//	HashIndex     = number of set bits       (OnesCount)
+//	Apply(l)      = m & ((1<<l)-1)
+//	IsSignificant = l == 0 || bit l-1 of m   (a single-bit test: x%2, x&1, m&(1<<k))
 func (c *Ctx) levelMaskAlgebra() {
 	const R = "E11.level-mask"
 	callsAny := func(f *ssa.Function, qs ...string) bool {
